@@ -43,6 +43,33 @@ def general_cases(tier, seed, mode, classes=None, hostile=False, directives=()):
         out.append(G.random_case(rng, "rnd-%s-%d" % (cls, k), cls, mode, 20 + rng.below(40), directives=directives, hostile=hostile))
     return out
 
+def soak(tier, seed, mode, pid, n=8000, hostile=False):
+    """thorough tier only: seeded random histories (all operations, iterators stepped and dropped/forgotten at random
+    points, two-register operations) on every element class; the property's own oracles and disagreement categories apply"""
+    if tier != "thorough":
+        return []
+    rng = G.Rng(seed ^ (0x50AC + sum(ord(ch) for ch in pid)) ^ (0xABCD if mode == "release" else 0))
+    out = []
+    for k in range(n):
+        cls = G.CLASSES[k % len(G.CLASSES)]
+        out.append(G.random_case(rng, "soak-%s-%s-%d" % (pid, cls, k), cls, mode, 15 + rng.below(50), hostile=hostile))
+    return out
+
+def raw_after_ops(tier, mode):
+    """thorough tier only: a raw-parts round trip after every single operation on every start state (also over-aligned)"""
+    if tier != "thorough":
+        return []
+    out = []
+    k = 0
+    for cls in G.CLASSES:
+        for label, pre in G.start_states(cls):
+            for op in G.mutating_ops(args=[0, 1, 2, 5]):
+                out.append(G.case("rawop-%s-%s-%d" % (cls, label, k), cls, mode, pre + [op, "raw_parts v0", "push v0 5", "raw_part v0", "pop v0", "shrink_to_fit v0", "raw_parts v0"])); k += 1
+        for a in (16, 32, 64, 4096):
+            for op in G.mutating_ops(args=[0, 1, 2, 5]):
+                out.append(G.case("rawopA-%s-%d" % (cls, k), cls, mode, ["with_alignment v0 3 %d" % a, "push v0 1", "push v0 2", op, "raw_part v0", "push v0 5", "raw_parts v0"])); k += 1
+    return out
+
 def huge_cases(mode):
     """C09: counts near the representable limits for every size-taking entry point"""
     out = []
@@ -149,13 +176,19 @@ CALLBACK_SEQS = [
     ["drop v0"], ["split_off v0 1 c", "drop c"], ["macro_list c 8 9", "append v0 c", "drop c"],
     ["deserialize c 2 sq[1,2,3]"], ["deserialize c N sq[1,E]"], ["deserialize_in_place v0 N sq[7,8]"], ["deserialize_in_place v0 9 sq[7,8,9,10,11]"],
     ["compare v0 v0"],
+    # iterators dropped with two or more elements not yet yielded and a tail behind the range
+    ["drain v0 I0 E2 it", "drop it"], ["drain v0 I1 E4 it", "drop it"], ["drain v0 I1 E5 it", "next it", "drop it"], ["drain v0 I0 E4 it", "next_back it", "drop it"],
+    ["splice v0 I1 E4 it[7] it", "drop it"], ["splice v0 I1 E4 it[7,8,9,10,11] it", "next it", "drop it"], ["splice v0 I0 E3 it[7,8] it", "next_back it", "drop it"],
+    ["drain_filter v0 seqTTTFT it", "drop it"], ["drain_filter v0 seqFTTTF it", "drop it"], ["drain_filter v0 seqTFTTT it", "next it", "drop it"],
+    ["retain v0 seqTFTTF"], ["retain v0 seqFTTFT"], ["dedup_by v0 seqFFTFT"],
 ]
 
 def panic_sweep(tier, seed, mode):
     """every callback-bearing operation x storage state x element class, re-run with the k-th callback
     invocation panicking, then a fixed probe (read all, push, pop, clone, drop)"""
     out = []
-    classes = ["w4", "s16", "b1"] if tier == "quick" else ["w4", "s16", "b1", "a32", "big"]
+    # p4: an element type without drop glue (a duplicated element is then only visible as a duplicated identity)
+    classes = ["w4", "s16", "b1", "p4"] if tier == "quick" else ["w4", "s16", "b1", "p4", "a32", "big"]
     ks = range(1, 10) if tier == "quick" else range(1, 26)
     probe = ["push v0 77", "pop v0", "clone v0 probe", "drop probe"]
     n = 0
@@ -266,7 +299,7 @@ def raw_cases(tier, seed, mode):
         for label, pre in G.start_states(cls):
             for op in ("raw_parts v0", "raw_part v0"):
                 out.append(G.case("raw-%s-%s-%d" % (cls, label, k), cls, mode, pre + [op, "push v0 5", "pop v0", "spare v0"])); k += 1
-        for a in (8, 16, 32, 64, 128, 512, 4096):
+        for a in (8, 16, 32, 64, 128, 512, 4096, 8192, 65536, 2097152):
             for n in (0, 1, 5):
                 for op in ("raw_parts v0", "raw_part v0"):
                     out.append(G.case("rawA-%s-%d" % (cls, k), cls, mode, ["with_alignment v0 %d %d" % (n, a), "push v0 1", "push v0 2", op, "push v0 3", "pop v0"])); k += 1
@@ -372,6 +405,36 @@ def hostile_cases(tier, seed, mode):
         out.append(G.random_case(rng, "hr-%s-%d" % (cls, i), cls, mode, 15 + rng.below(25), directives=["!vecdiff off"], hostile=True))
     return out
 
+def clone_glue_cases(mode):
+    """every operation that must go through the element's Clone, on the element class without drop glue (p4: Clone but
+    not Copy; a bitwise copy instead of a clone shows as the same identity twice) and on one with a destructor"""
+    out = []
+    k = 0
+    ops = [["extend_from_slice v0 7 8 9"], ["extend_from_slice v0 7"], ["clone v0 c", "push c 1"], ["resize v0 9 4"], ["from_slice c 1 2 3", "append v0 c"],
+           ["from_mut_slice c 4 5 6", "push c 1"], ["extend_from_within v0 U U"], ["extend_from_within v0 I0 E1"], ["macro_repeat c 7 4", "append v0 c"],
+           ["macro_list c 5 6 7 8 9 1 2", "clone_from v0 c"], ["macro_list c 5", "clone_from v0 c"], ["into_iter v0 it", "clone_iter it j", "drop j", "drop it"]]
+    for cls in ("p4", "w4"):
+        for label, pre in G.start_states(cls):
+            for seq in ops:
+                out.append(G.case("cg-%s-%s-%d" % (cls, label, k), cls, mode, pre + list(seq) + ["push v0 3", "pop v0"])); k += 1
+    return out
+
+def compare_prefix_cases(mode):
+    """comparisons between vectors of different lengths, one a prefix of the other, the shorter one never allocated /
+    exactly full / with destroyed elements behind its length; also under equality scripts that always answer `equal`"""
+    out = []
+    k = 0
+    longs = [["macro_list a 1 2 3 4"], ["macro_list a 1 2 3 4 5 6 7 8 9"], ["with_capacity a 16", "extend a it[1,2,3]"]]
+    shorts = [["new b"], ["with_capacity b 4"], ["macro_list b 1 2 3"], ["macro_list b 1 2 3 9 9", "truncate b 3"], ["macro_list b 1", "shrink_to_fit b"],
+              ["macro_list b 1 2 3 4 5", "clear b"], ["macro_list b 1 2", "pop b", "pop b", "shrink_to_fit b"]]
+    for cls in ("w4", "s16", "b1", "p4"):
+        for lo in longs:
+            for sh in shorts:
+                for es in (None, "T", "TTTTTTTTTTTT", "F"):
+                    out.append(G.case("cpx-%s-%d" % (cls, k), cls, mode, lo + sh + ["compare a b", "compare b a", "compare a a", "push b 1", "compare a b"],
+                                      ["!vecdiff off", "!eq_script " + es] if es else [])); k += 1
+    return out
+
 def align_cases(tier, seed, mode):
     out = []
     k = 0
@@ -408,6 +471,57 @@ def growth_cases(mode):
     for cls, n in (("big", 4100), ("s16", 3000), ("w4", 3000), ("b1", 200)):
         items = ",".join(str(i % 7) for i in range(n))
         out.append(G.case("grow-%s" % cls, cls, mode, ["new v0", "extend v0 it[%s]" % items, "spare v0"]))
+    return out
+
+def fit_cases(mode):
+    """C07 stability clause: every adding operation at every fill level of a vector with known spare room, the
+    result still fitting: storage and capacity must stay (also when the iterator's size_hint claims far more than it
+    yields, when the destination is empty but owns storage, when the source of an append is roomier)"""
+    out = []
+    k = 0
+    for cls in G.CLASSES:
+        for cap in (8, 16):
+            for fill in (0, 1, cap // 2, cap - 3, cap - 1):
+                pres = [["with_capacity v0 %d" % cap] + ["push v0 %d" % (i % 7) for i in range(fill)],
+                        ["with_capacity v0 %d" % cap] + ["push v0 %d" % (i % 7) for i in range(cap)] + ["truncate v0 %d" % fill]]
+                if fill == 0:
+                    pres.append(["with_capacity v0 %d" % cap, "push v0 1", "clear v0"])
+                room = cap - fill
+                for pre in pres:
+                    adds = []
+                    for n in sorted(set((1, 2, room - 1, room))):
+                        if n <= 0 or n > room:
+                            continue
+                        items = ",".join(str((j * 3) % 7) for j in range(n))
+                        for h in ("", "h0-100", "h0-N", "h%d-1000" % n, "h0-0", "h0-%d" % (room + 1)):
+                            adds.append("extend v0 it[%s]%s" % (items, h))
+                        adds.append("extend_from_slice v0 %s" % items.replace(",", " "))
+                        adds.append("resize v0 %d 3" % (fill + n))
+                        adds.append("resize_with v0 %d g[%s]" % (fill + n, items))
+                        adds.append("from_slice w %s|append v0 w" % items.replace(",", " "))
+                        adds.append("with_capacity w 64|extend w it[%s]|append v0 w" % items)
+                        adds.append("insert v0 0 5")
+                        if fill >= n:
+                            adds.append("extend_from_within v0 I0 E%d" % n)
+                        adds.append("splice v0 I0 E0 it[%s]h0-100 it|drop it" % items)
+                        adds.append("splice v0 I0 E%d it[%s] it|next it|drop it" % (min(fill, 1), items))
+                    for a in adds:
+                        out.append(G.case("fit-%s-%d" % (cls, k), cls, mode, pre + a.split("|") + ["spare v0", "push v0 1"])); k += 1
+    return out
+
+def serde_error_cases(mode):
+    """ownership on the error paths of deserialization: an element error at every position of a short input, for
+    claimed lengths below, at and above the failing position"""
+    out = []
+    k = 0
+    for cls in ("w4", "s16", "b1"):
+        for n in range(0, 7):
+            for epos in range(0, n + 1):
+                items = [str(1 + (j % 5)) for j in range(n)]
+                items.insert(epos, "E")
+                sq = "sq[%s]" % ",".join(items)
+                for h in ("N", "0", "1", str(max(epos, 1)), str(epos + 1), str(n), str(n + 3), "1024", "5000"):
+                    out.append(G.case("sde-%s-%d" % (cls, k), cls, mode, ["deserialize v0 %s %s" % (h, sq), "macro_list w 1 2 3", "reserve w 3", "deserialize_in_place w %s %s" % (h, sq), "push w 5", "drop w"])); k += 1
     return out
 
 def serde_cases(tier, seed, mode):
@@ -465,28 +579,28 @@ PROPS = {
             "owned_oracles": ["O vec-mismatch", "macro-evals", "X signal"], "owned_diffs": ["result", "contents", "panic", "crash"],
             "partial_missing": ["refinement to Vec semantics proved for every history over push, pop, insert, remove, swap_remove, truncate, clear, retain (any predicate), reserve, reserve_exact, shrink_to, shrink_to_fit (C01_refines_vec_partial); separately proved value-for-value: extend_from_slice, resize, resize_with (any generator) (C01Loops), From<&[T]> (C01_from_slice_partial), clone, extend/collect, dedup*, Drain, IntoIter, DrainFilter (any predicate); append, split_off, drain_vec, mini_vec![a, b, c], splice (any replacement iterator), extend_from_within, remove_item (any equality), mini_vec![e; n], clone_from; the remaining conversions (From<Vec>, From<Box<[T]>>, From<&str>, Borrow/AsRef/Deref views, io::Write) are tied to Vec and to the model by the three-way correspondence only"]},
     "C02": {"modules": ["MiniVecProof.Props.C02", "MiniVecProof.Props.C10", "MiniVecProof.Props.C10IntoIter", "MiniVecProof.Props.C10DrainFilter"],
-            "cases": lambda tier, seed: [(m, c + raw_natural_cases(m)) for m, c in general(tier, seed, "C02")],
+            "cases": lambda tier, seed: [(m, c + raw_natural_cases(m) + serde_error_cases(m)) for m, c in general(tier, seed, "C02")],
             "owned_oracles": ["O ledger", "X signal"], "owned_diffs": ["own", "crash"],
             "partial_missing": ["exactly-once destruction and conservation proved for every completed history over the 12 operations of POp (incl. retain with any predicate) followed by Drop (C02_exactly_once_partial, C02_no_double_drop, C02_no_leak); for Drain and IntoIter dropped after any interleaving of steps: yielded front ++ destroyed ++ yielded back reversed = the selected range (specSteps_partition + C10_drain_partial / C10_into_iter_partial); DrainFilter: yielded ++ destroyed = accepted, vector = rejected (C10_drain_filter_partial); Splice and the remaining operations by correspondence + per-element ledger"]},
     "C03": {"modules": ["MiniVecProof.Props.C01", "MiniVecProof.Proofs.MemDrop", "MiniVecProof.Props.C09"],
             "cases": lambda tier, seed: [(m, c + huge_cases(m) + raw_natural_cases(m)) for m, c in general(tier, seed, "C03", modes=("debug", "release"))],
             "owned_oracles": ["O alloc", "O cap"], "owned_diffs": ["alloc", "ub", "crash"],
             "partial_missing": ["layout quoting proved for grow (every caller), Drop and IntoIter::drop; in-bounds access proved for the 11 operations of POp, Drain and IntoIter (every step and drop), clone, retain scan; others by correspondence + checking allocator"]},
-    "C04": {"modules": ["MiniVecProof.Props.C04", "MiniVecProof.Props.C04Drain", "MiniVecProof.Props.C04IntoIter", "MiniVecProof.Props.C01"],
+    "C04": {"modules": ["MiniVecProof.Props.C04", "MiniVecProof.Props.C04Drain", "MiniVecProof.Props.C04IntoIter", "MiniVecProof.Props.C04DrainFilter", "MiniVecProof.Props.C01"],
             "cases": lambda tier, seed: [("debug", corpus("debug", "C04") + panic_sweep(tier, seed, "debug"))],
-            "owned_oracles": ["O ledger", "O alloc", "X signal 11"], "owned_diffs": ["own", "contents", "result", "panic", "alloc", "ub", "crash"],
-            "partial_missing": ["proved under an ARBITRARY panic oracle (any subset of the callbacks may panic): truncate, clear (C04_truncate_partial, C04_clear_partial: length cut before the first destructor, every doomed element destroyed once unless the double-panic abort) and retain with a panicking predicate or destructor (C04_retain_partial: what is exposed plus what was destroyed is a rearrangement of the contents); drop_in_place semantics dropAll_any; the drop guard of Drain (C04_drain_drop_partial: a destructor panic while the Drain is dropped — the guard destroys the rest and moves the tail back, a second panic is the abort) and Drop for IntoIter (C04_into_iter_drop_partial); every other callback site (Splice/DrainFilter drop guards, clone, extend, dedup_by, resize_with, serde) is decided by the exhaustive crash-point sweep of the correspondence"]},
+            "owned_oracles": ["O ledger", "O alloc", "X signal"], "owned_diffs": ["own", "contents", "result", "panic", "alloc", "ub", "crash"],
+            "partial_missing": ["proved under an ARBITRARY panic oracle (any subset of the callbacks may panic): truncate, clear (C04_truncate_partial, C04_clear_partial: length cut before the first destructor, every doomed element destroyed once unless the double-panic abort) and retain with a panicking predicate or destructor (C04_retain_partial: what is exposed plus what was destroyed is a rearrangement of the contents); drop_in_place semantics dropAll_any; the drop guard of Drain (C04_drain_drop_partial: a destructor panic while the Drain is dropped — the guard destroys the rest and moves the tail back, a second panic is the abort) and Drop for IntoIter (C04_into_iter_drop_partial); DrainFilter::next with a panicking predicate at any point of the scan (C04_drain_filter_partial: the guard moves the unscanned rest back, the vector exposes kept ++ unscanned and nothing was destroyed); every other callback site (the Splice drop guard, a destructor panic while a DrainFilter is dropped, clone, extend, dedup_by, resize_with, serde) is decided by the exhaustive crash-point sweep of the correspondence"]},
     "C05": {"modules": ["MiniVecProof.Props.C05", "MiniVecProof.Props.C05Iters"],
-            "cases": lambda tier, seed: [("debug", corpus("debug", "C05") + forget_cases(tier, seed, "debug"))],
-            "owned_oracles": ["O ledger", "O alloc", "X signal 11"], "owned_diffs": ["own", "contents", "result", "ub", "crash"],
+            "cases": lambda tier, seed: [("debug", corpus("debug", "C05") + forget_cases(tier, seed, "debug") + soak(tier, seed, "debug", "C05"))],
+            "owned_oracles": ["O ledger", "O alloc", "X signal"], "owned_diffs": ["own", "contents", "result", "ub", "crash"],
             "partial_missing": ["proved: Drain (C05_drain_forget), Splice (C05_splice_forget) and DrainFilter with any predicate (C05_drain_filter_forget) after ANY steps: the vector left behind exposes only the untouched prefix / nothing; IntoIter owns its vector, forgetting it leaks everything (nothing stays observable): correspondence only"]},
     "C06": {"modules": ["MiniVecProof.Props.C06"],
-            "cases": lambda tier, seed: [("debug", corpus("debug", "C06") + sentinel_sweep("debug")), ("release", corpus("release", "C06") + sentinel_sweep("release"))],
+            "cases": lambda tier, seed: [("debug", corpus("debug", "C06") + sentinel_sweep("debug") + soak(tier, seed, "debug", "C06", n=4000)), ("release", corpus("release", "C06") + sentinel_sweep("release"))],
             "owned_oracles": ["X signal", "O ledger", "O alloc", "O vec-mismatch", "sentinel-noalloc"], "owned_diffs": ["result", "contents", "panic", "alloc", "own", "ub", "crash", "cap"]},
-    "C07": {"modules": ["MiniVecProof.Props.C07", "MiniVecProof.Props.C01"],
-            "cases": lambda tier, seed: [(m, c + growth_cases(m)) for m, c in general(tier, seed, "C07", modes=("debug", "release"))],
+    "C07": {"modules": ["MiniVecProof.Props.C07", "MiniVecProof.Props.C07Stable", "MiniVecProof.Props.C01"],
+            "cases": lambda tier, seed: [(m, c + growth_cases(m) + fit_cases(m)) for m, c in general(tier, seed, "C07", modes=("debug", "release"))],
             "owned_oracles": ["O cap", "reserve-contract", "stable", "log-resizes"], "owned_diffs": ["cap", "alloc"],
-            "partial_missing": ["storage stability proved for pop, truncate, clear (block and capacity unchanged in their specs); other operations by correspondence"]},
+            "partial_missing": ["stability clause proved (Props/C07Stable: same block identity, same layout, same capacity and alignment, no allocator request, no allocator event) for push, insert, extend (ANY source iterator: only what it yields counts, never its size_hint), extend_from_slice, resize, resize_with (any generator), append (destination empty or not, source roomier or not) whenever the result fits, and for pop, remove, swap_remove, truncate, clear; retain / dedup* / drain / drain_filter keep capacity and block identity in the C17 / C10 theorems; extend_from_within, splice and clone_from that fit: correspondence + the stability oracle on every adding operation at every fill level (fit_cases)"]},
     "C08": {"modules": ["MiniVecProof.Props.C08"],
             "cases": lambda tier, seed: [("debug", corpus("debug", "C08") + align_cases(tier, seed, "debug")), ("release", align_cases(tier, seed, "release"))],
             "owned_oracles": ["O align", "align-req", "O alloc layout-mismatch", "with-alignment-result", "X signal"], "owned_diffs": ["alloc", "result", "ub", "crash", "panic"]},
@@ -498,38 +612,38 @@ PROPS = {
         "partial_missing": ["lifting of the generated-code theorems through the hand model for resize / resize_with / mini_vec![x; n] / extend_from_slice is by correspondence only"],
     },
     "C10": {"modules": ["MiniVecProof.Props.C10", "MiniVecProof.Props.C10IntoIter", "MiniVecProof.Props.C10DrainFilter", "MiniVecProof.Props.C10Splice", "MiniVecProof.Props.C06"],
-            "cases": lambda tier, seed: [("debug", corpus("debug", "C10") + iterator_cases(tier, seed, "debug") + lying_hint_cases("debug")),
+            "cases": lambda tier, seed: [("debug", corpus("debug", "C10") + iterator_cases(tier, seed, "debug") + lying_hint_cases("debug") + soak(tier, seed, "debug", "C10", n=12000)),
                                          ("release", boundary_grid("release"))],
-            "owned_oracles": ["O vec-mismatch", "X signal 11"], "owned_diffs": ["result", "contents", "ub", "crash"],
+            "owned_oracles": ["O vec-mismatch", "X signal"], "owned_diffs": ["result", "contents", "ub", "crash", "panic"],
             "partial_missing": ["proved for Drain on every storage state (C10_drain_partial): every interleaving of front/back steps yields what the list iterator over es[st..en] yields, exact counts, None for ever after the ends meet, vector untouched by steps, and drop leaves prefix ++ suffix destroying exactly the unyielded elements; proved for IntoIter on every storage state (C10_into_iter_partial): same protocol, exact len(), as_slice() = unyielded elements, drop destroys exactly those and frees the block with its layout; proved for DrainFilter with ANY predicate (C10_drain_filter_partial, C10_drain_filter_default): any number of next() calls yields the accepted elements in order, drop leaves exactly the rejected ones; proved for Splice with ANY replacement iterator (C10_splice_partial, C10_splice_default): steps are those of its embedded Drain, drop leaves prefix ++ (items before the first None) ++ suffix through every path of the drop guard (gap closed, tail moved up after growing); remaining: yielded sequences and counts checked against std's iterators and the model by correspondence only"]},
     "C11": {
         "modules": ["MiniVecProof.Props.C11"],
         "cases": lambda tier, seed: [("debug", corpus("debug", "C11") + argument_grid("debug")), ("release", argument_grid("release"))] if tier == "thorough"
                  else [("debug", corpus("debug", "C11") + argument_grid("debug")), ("release", boundary_grid("release"))],
-        "owned_oracles": ["accept-predicate", "rejected-unchanged", "X signal 11"],
+        "owned_oracles": ["accept-predicate", "rejected-unchanged", "X signal"],
         "owned_diffs": ["panic", "result"],
     },
     "C12": {"modules": ["MiniVecProof.Props.C12", "MiniVecProof.Props.C12IntoIter", "MiniVecProof.Props.C12CloneFrom"],
-            "cases": lambda tier, seed: [("debug", corpus("debug", "C12") + clone_cases(tier, seed, "debug") + clone_panic_cases("debug"))],
+            "cases": lambda tier, seed: [("debug", corpus("debug", "C12") + clone_cases(tier, seed, "debug") + clone_panic_cases("debug") + soak(tier, seed, "debug", "C12"))],
             "owned_oracles": ["O ledger", "O alloc", "X signal", "O vec-mismatch"], "owned_diffs": ["own", "contents", "result", "alloc", "ub", "crash", "panic"],
             "partial_missing": ["proved: Clone for MiniVec returns a well-formed vector of value-equal clones in order with the source handle untouched, or stops in a sanctioned way (C12_clone_partial); IntoIter::as_slice (what IntoIter::clone copies) is exactly the unyielded elements (into_as_slice); IntoIter::clone after any steps builds a fresh vector of value-equal clones of exactly the unyielded elements with its own cursor, original untouched (C12_into_iter_clone_partial); clone_from (C12_clone_from_partial: self gets value-equal clones, its old elements destroyed once, source untouched; self untouched if cloning stops); independence under later mutation/drop in either order: correspondence with owning elements only (the model cannot share a block between two handles by construction)"]},
     "C14": {"modules": ["MiniVecProof.Props.C14"],
-            "cases": lambda tier, seed: [("debug", corpus("debug", "C14") + raw_cases(tier, seed, "debug")), ("release", raw_cases(tier, seed, "release"))],
+            "cases": lambda tier, seed: [("debug", corpus("debug", "C14") + raw_cases(tier, seed, "debug") + raw_after_ops(tier, "debug")), ("release", raw_cases(tier, seed, "release") + raw_after_ops(tier, "release"))],
             "owned_oracles": ["O rawparts", "O cap", "O ledger", "X signal", "O vec-mismatch", "rawparts-null", "O alloc"], "owned_diffs": ["ub", "result", "contents", "crash", "panic"]},
     "C17": {"modules": ["MiniVecProof.Props.C17", "MiniVecProof.Props.C17RemoveItem", "MiniVecProof.Props.C10DrainFilter", "MiniVecProof.Props.C10Splice", "MiniVecProof.Props.C01Loops"],
-            "cases": lambda tier, seed: [("debug", corpus("debug", "C17") + hostile_cases(tier, seed, "debug") + huge_hint_cases("debug") + extend_ref_cases("debug")),
+            "cases": lambda tier, seed: [("debug", corpus("debug", "C17") + hostile_cases(tier, seed, "debug") + huge_hint_cases("debug") + extend_ref_cases("debug") + clone_glue_cases("debug") + lying_hint_cases("debug") + compare_prefix_cases("debug")),
                                          ("release", huge_hint_cases("release") + extend_ref_cases("release"))],
-            "owned_oracles": ["O ledger", "O alloc", "X signal 11"], "owned_diffs": ["own", "contents", "result", "alloc", "ub", "crash"],
+            "owned_oracles": ["O ledger", "O alloc", "X signal"], "owned_diffs": ["own", "contents", "result", "alloc", "ub", "crash"],
             "partial_missing": ["proved: retain under an ARBITRARY (stateful, inconsistent) non-panicking predicate keeps a sublist of live elements, destroys exactly the others once, no allocator traffic (C17_retain_partial, C17_live_distinct); dedup / dedup_by / dedup_by_key under an arbitrary equality script, predicate or key function (C17_dedup_partial); extend / collect with an arbitrary (non-fused) source iterator (C17_extend_partial, C17_collect_partial); clone under an arbitrary Clone (C12_clone_partial); drain_filter with ANY predicate (C10_drain_filter_partial), resize_with with ANY generator (C17_resize_with_partial); splice with ANY replacement iterator incl. non-fused (C10_splice_partial), remove_item with ANY equality script (C17_remove_item_partial); comparisons: scripted callbacks enumerated exhaustively up to length 4 (quick) / 6 (thorough) by the correspondence only"]},
     "C19": {"modules": ["MiniVecProof.Props.C19", "MiniVecProof.Props.C19Mem"],
             "cases": lambda tier, seed: [("debug", serde_cases(tier, seed, "debug")), ("release", serde_cases(tier, seed, "release"))] if tier == "thorough"
                      else [("debug", serde_cases(tier, seed, "debug"))],
-            "owned_oracles": ["O vec-mismatch", "O ledger", "O alloc", "serde-prealloc", "X signal 11"],
+            "owned_oracles": ["O vec-mismatch", "O ledger", "O alloc", "serde-prealloc", "X signal"],
             "owned_diffs": ["result", "contents", "alloc", "own", "cap", "panic", "ub", "crash"],
             "partial_missing": ["(a) C19_deserialize_partial / C19_round_trip_partial, (b)+(d) C19_deserialize_in_place_partial are proved on the hand model Model/Serde.lean for ANY scripted SeqAccess (values, an element error anywhere, an early Ok(None) followed by more items) and ANY claimed length; (c) on regenerated code. The hand model of src/serde.rs and of Serialize is tied to the code by the correspondence (std Vec's own serde impl as shadow) only"]},
     "C18": {"modules": ["MiniVecProof.Props.C18"],
             "cases": lambda tier, seed: [("debug", allocfail_sweep(tier, seed, "debug")), ("release", allocfail_sweep(tier, seed, "release"))],
-            "owned_oracles": ["X signal 11", "allocfail-outcome", "O alloc"], "owned_diffs": ["alloc", "panic", "result", "crash", "ub"]},
+            "owned_oracles": ["X signal", "allocfail-outcome", "O alloc"], "owned_diffs": ["alloc", "panic", "result", "crash", "ub"]},
 }
 
 import special as S
